@@ -2,6 +2,7 @@
 import copy
 import os
 import signal
+import sys
 import time
 import gallina as G
 import tygen
@@ -25,11 +26,15 @@ RULE = ("a case is one random composite definition (nesting depth 1-4, sub-byte 
         "fixed_length, is_aligned_at_byte of the type and of every field offset, == and hash between the two readings. The runner "
         "monkey-patches pydsdl._bit_length_set._symbolic: itertools.product / combinations_with_replacement count every item they "
         "yield, every Operator.modulo call is logged (kind, divisor, count k, sizes of the children's residue sets, items it "
-        "enumerated itself, size of its result), every Operator.expand call is counted. Non-trivial = the definition contains a marked "
+        "enumerated itself, size of its result), every Operator.expand call is counted; independently of how the code is written, the "
+        "Python line events (one per loop iteration) executed inside pydsdl/_bit_length_set and pydsdl/_serializable are counted by a "
+        "trace function and must not grow with capacity from 2**16 on (<= 2x + 1000), and each instance has a 10 s CPU-time ceiling. "
+        "The per-call comparison with the model is one-sided: a call may enumerate no more than the closed form (items, children's "
+        "residue sets, result), so that the proven bounds transfer. Non-trivial = the definition contains a marked "
         "array nested in another array or composite; distinct by hash")
-THEOREMS_NOTE = ("C16_local_* make the logged per-call enumeration the closed form; C16_count_clamp/C16_capacity_sweep/C16_clamp_tree make cost independent "
+THEOREMS_NOTE = ("C16_local_* give the closed form that bounds the logged per-call enumeration; C16_count_clamp/C16_capacity_sweep/C16_clamp_tree make cost independent "
                  "of capacities beyond 2*divisor; C16_residue_sets_bounded bounds every enumerated set by its divisor")
-TRUSTED = ["the monitor is monkey-patching done by the runner process (no source hook); wall time and memory are not modelled (a 10 s per-instance ceiling is a safety net only)"]
+TRUSTED = ["the monitor is monkey-patching done by the runner process (no source hook); wall time and memory are not modelled (a 10 s CPU-time ceiling per instance and the line-event count are implementation-only observations)"]
 ASSUMPTIONS = ["definitions using `_offset_` / `_bit_length_` are excluded: those intrinsics expand numerically by design"]
 EXPLANATION = ("partial by nature: the theorems are about the number and size of enumerated sets (closed-form cost semantics proved equal to the model's "
                "enumeration), the monitor ties that cost semantics to every modulo() call the implementation makes and checks that expansion never happens")
@@ -130,6 +135,13 @@ class Monitor:
         self.saved = []
         self.saved_itertools = None
         self.attach_error = None
+        # technique-independent measure: Python-level line events (one per loop iteration as well) executed inside the layout
+        # analysis packages; whatever way a residue or offset computation is written, its work shows up here or in the ticks
+        self.work = 0
+        import pydsdl
+        base = os.path.dirname(os.path.abspath(pydsdl.__file__))
+        self.traced_dirs = (os.path.join(base, "_bit_length_set") + os.sep, os.path.join(base, "_serializable") + os.sep)
+        sys.settrace(self._global_trace)
         try:
             from pydsdl._bit_length_set import _symbolic as S
             self.S = S
@@ -138,6 +150,16 @@ class Monitor:
             # the internals the monitor hooks into are gone (renamed / restructured): the correspondence cannot be observed
             self.attach_error = "%s: %s" % (type(ex).__name__, str(ex)[:200])
             self.close()
+
+    def _global_trace(self, frame, event, _arg):
+        if frame.f_code.co_filename.startswith(self.traced_dirs):
+            return self._local_trace
+        return None
+
+    def _local_trace(self, _frame, event, _arg):
+        if event == "line":
+            self.work += 1
+        return self._local_trace
 
     def _attach(self, S, itertools):
         mon = self
@@ -162,7 +184,7 @@ class Monitor:
         S.itertools = CountingItertools()
         kinds = {S.NullaryOperator: "KLeaf", S.PaddingOperator: "KPad", S.ConcatenationOperator: "KCat",
                  S.RepetitionOperator: "KRep", S.RangeRepetitionOperator: "KRRep", S.UnionOperator: "KUni"}
-        for cls, kind in kinds.items():
+        for cls, kind in list(kinds.items()) + [(S.MemoizationOperator, None)]:
             self.saved.append((cls, "modulo", cls.modulo))
             cls.modulo = self.wrap_modulo(cls.modulo, kind)
         # expansion of a leaf is just its (small) set, e.g. the residue set returned by `%`; everything else is numeric expansion
@@ -176,37 +198,32 @@ class Monitor:
             self.stack[-1][0] += 1
 
     def wrap_modulo(self, orig, kind):
+        """Logs one modulo() call. Nothing here depends on private attribute names: the sizes of the children's residue sets are the
+        sizes of the results of the direct child calls made by this call (memoised children answer through MemoizationOperator.modulo,
+        which is wrapped as a pass-through with kind None), the repetition count is the integer attribute of the operator."""
         mon = self
-        S = self.S
 
         def modulo(op, divisor):
-            frame = [0]
+            frame = [0, []]
             mon.stack.append(frame)
             try:
                 out = orig(op, divisor)
             finally:
                 mon.stack.pop()
-            # sizes of the children's residue sets (memoised: asking again costs nothing and enumerates nothing)
-            saved_stack, mon.stack = mon.stack, []
-            saved_total = mon.total
-            try:
-                if kind == "KPad":
-                    sizes = [len(op._child.modulo(S.least_common_multiple(op._padding, divisor)))]
-                    k = 0
-                elif kind in ("KRep", "KRRep"):
-                    sizes = [len(op._child.modulo(divisor))]
-                    k = op._k if kind == "KRep" else op._k_max
-                elif kind in ("KCat", "KUni"):
-                    sizes = [len(ch.modulo(divisor)) for ch in op._children]
-                    k = 0
-                else:
-                    sizes, k = [], 0
-            except AttributeError as ex:  # private attributes renamed: the correspondence cannot be observed (not a property failure)
-                mon.attach_error = "AttributeError: %s" % str(ex)[:200]
-                sizes, k = [], 0
-            finally:
-                mon.stack = saved_stack
-                mon.total = saved_total
+            if mon.stack:
+                mon.stack[-1][1].append(len(out))
+            if kind is None:
+                return out
+            k = 0
+            if kind in ("KRep", "KRRep"):
+                try:
+                    ints = [v for v in vars(op).values() if isinstance(v, int) and not isinstance(v, bool)]
+                    if len(ints) != 1:
+                        raise TypeError("%d integer attributes" % len(ints))
+                    k = ints[0]
+                except TypeError as ex:  # representation changed: the correspondence cannot be observed (not a property failure)
+                    mon.attach_error = "repetition count not found: %s" % str(ex)[:200]
+            sizes = list(frame[1]) if kind != "KLeaf" else []
             mon.calls.append({"kind": kind, "d": divisor, "k": k, "sizes": sizes, "local": frame[0], "out": len(out)})
             return out
 
@@ -222,6 +239,7 @@ class Monitor:
         return expand
 
     def close(self):
+        sys.settrace(None)
         if self.saved_itertools is not None:
             self.S.itertools = self.saved_itertools
             self.saved_itertools = None
@@ -288,9 +306,9 @@ def run_impl(cases):
             if elapsed > CEILING_S - 1 and not timed_out:
                 fail = "instance with capacity scale %d took %.1f s" % (cap, elapsed)
             if timed_out:
-                variants.append({"cap": cap, "total": 0, "expands": mon.expands, "calls": [], "elapsed": round(elapsed, 3)})
+                variants.append({"cap": cap, "total": 0, "expands": mon.expands, "calls": [], "elapsed": round(elapsed, 3), "work": mon.work})
                 break
-            variants.append({"cap": cap, "total": mon.total, "expands": mon.expands, "calls": mon.calls, "elapsed": round(elapsed, 3)})
+            variants.append({"cap": cap, "total": mon.total, "expands": mon.expands, "calls": mon.calls, "elapsed": round(elapsed, 3), "work": mon.work})
         ob = {"variants": variants}
         # totals must not depend on the capacity scale once it exceeds twice the largest divisor in use AND the implicit
         # length prefixes have the same residues: capacity 2**8 has a 16-bit prefix (16 mod 32 != 0), capacities from 2**16 on
@@ -299,6 +317,9 @@ def run_impl(cases):
         big = [sum(c["local"] for c in v["calls"] if c["d"] in (1, 8, 32)) for v in variants if v["cap"] >= 2 ** 16]
         if len(set(big)) > 1:
             fail = "enumeration count for the divisors 1, 8, 32 depends on capacity: %s" % [(v["cap"], sum(c["local"] for c in v["calls"] if c["d"] in (1, 8, 32))) for v in variants]
+        works = [v["work"] for v in variants if v["cap"] >= 2 ** 16 and v["calls"] is not None]
+        if works and not fail and max(works) > 2 * min(works) + 1000:
+            fail = "Python-level work inside pydsdl/_bit_length_set and pydsdl/_serializable grows with capacity: %s" % [(v["cap"], v["work"]) for v in variants]
         if any(v["expands"] for v in variants):
             fail = "numeric expansion was invoked %s times" % [v["expands"] for v in variants]
         if fail:
